@@ -118,7 +118,12 @@ class SmtLibSolver(Solver): # TODO this class is defined twice in pysmt. Here an
 
     def _get_answer(self):
         """Reads a line from STDOUT pipe"""
-        res = self.solver_stdout.readline().strip()
+        line = self.solver_stdout.readline()
+        # Skip blank lines, e.g., the end of line left by a previous
+        # multi-token answer (get-value)
+        while line != "" and line.strip() == "":
+            line = self.solver_stdout.readline()
+        res = line.strip()
         self._debug("Read: %s", res)
         return res
 
